@@ -7,7 +7,8 @@ From LV Require Import Base.Prelude Cfg.Grammar Earley.Spec Forest.ExplicitToTre
   Forest.ExplicitBuild Forest.ExplicitBuild_proofs Forest.ExplicitBuildCheck
   Earley.Alg Earley.Alg_proofs Forest.ExplicitAlgBuild Forest.ExplicitAlgBuild_proofs
   Earley.Dyn Earley.Dyn_proofs Forest.ExplicitDynBuild Forest.ExplicitDynSound Forest.ExplicitDynBuild_proofs
-  Forest.ExplicitDynFamilies_proofs Forest.ExplicitDynComplete_proofs Forest.ExplicitDynExact_proofs.
+  Forest.ExplicitDynFamilies_proofs Forest.ExplicitDynComplete_proofs Forest.ExplicitDynExact_proofs
+  Forest.ExplicitGraph Forest.ExplicitGraphCheck Forest.ExplicitGraph_proofs.
 Import ListNotations.
 Local Open Scope string_scope.
 Local Open Scope list_scope.
@@ -415,6 +416,53 @@ Proof.
     + simpl. apply gt_cons with (m := 0) (e := 1); [constructor|exists 0; unfold run_tokedge; vm_compute; auto|].
       constructor. apply gap_step with (m := 2); [|constructor]. exists 1. split; [left; reflexivity|reflexivity].
 Qed.
+
+(* Layer B on cyclic forests (cyclic grammars).  Forest/ExplicitGraph.v models the explicit-mode walk of
+   ForestToParseTree on the SPPF as a numbered graph: a child already on the path is not entered (on_cycle), a packed
+   node is kept iff both children are kept, a symbol / intermediate node iff one of its packed children is, once the
+   left child is not kept the right one contributes nothing (it is entered in retreat), and the transformation of a kept
+   packed node is cached by identity and reused under other paths.  The model computes the kept part as an acyclic
+   forest (gunfold) and the tree as to_tree_explicit of it; lark's tree is compared with it exactly on every cyclic
+   forest of the streams cyclic-corpus / cyclic.
+   C04_B_cyclic_sound: for a graph of the local form gwfb (evaluated on every exported graph), the kept part is a
+   well-formed forest (root_okb), so C04_B_expand_exact applies to it - the alternatives of the returned tree are exactly
+   the shapes of the derivations of the kept part - and each of those is a finite unfolding of the graph (gder): every
+   returned alternative is the shape of a derivation stored in the forest, which by C04_A_sound tiles the input.
+   C04_B_cyclic_total: the model's fuel |g| + 1 always suffices (the path is duplicate-free); termination of the coded
+   loop for any callbacks is C20_visit_terminates / C20_loop_eq_rec. *)
+Theorem C04_B_cyclic_sound g root nd :
+  gwfb g = true -> groot_okb g root = true -> gunfold g root = Some (Some nd) ->
+  root_okb nd = true
+  /\ (forall t, In t (expand (to_tree_explicit nd)) <-> In t (map shape (derivs nd)))
+  /\ (forall d, In d (derivs nd) -> gder g root [d]).
+Proof. exact (graph_explicit_sound g). Qed.
+Print Assumptions C04_B_cyclic_sound.
+
+Theorem C04_B_cyclic_total g root : gwfb g = true -> root < length g -> gunfold g root <> None.
+Proof. exact (gunfold_total g). Qed.
+Print Assumptions C04_B_cyclic_total.
+
+(* What is kept on a cyclic forest is not "the derivations in which no node repeats on a path" (sder), in either
+   direction, and depends on the order of the alternatives: the packed-node cache is filled under the path of the first
+   visit and reused under other paths.  Witnesses (forests lark builds on "a", exported by the harness; stream
+   cyclic-corpus compares lark's trees with cx_tree / cx_tree2 through the model):
+     start: a | x   a: x | A   x: y   y: a | A    3 alternatives; start(x(y(a))) repeats no node and is lost
+     start: x | a   (same otherwise)              5 alternatives; start(a(x(y(a)))) passes through a twice and is kept
+   Soundness is not affected (C04_B_cyclic_sound); the property claims exactness for acyclic grammars only. *)
+Definition C04_B_cyclic_cycle_free_exact_full_statement : Prop :=
+  forall g root nd, gwfb g = true -> groot_okb g root = true -> gunfold g root = Some (Some nd) ->
+    forall d, In d (derivs nd) <-> sder g [] root [d].
+
+Theorem C04_B_cyclic_cycle_free_exact_refuted :
+  (gwfb cx_g = true /\ groot_okb cx_g 0 = true /\
+   exists nd, gunfold cx_g 0 = Some (Some nd) /\ to_tree_explicit nd = cx_tree /\ length (derivs nd) = 3 /\
+              sder cx_g [] 0 [cx_lost] /\ ~ In cx_lost (derivs nd))
+  /\
+  (gwfb cx_g2 = true /\ groot_okb cx_g2 0 = true /\
+   exists nd, gunfold cx_g2 0 = Some (Some nd) /\ to_tree_explicit nd = cx_tree2 /\ length (derivs nd) = 5 /\
+              In cx_pumped (derivs nd) /\ ~ sder cx_g2 [] 0 [cx_pumped]).
+Proof. exact cyclic_kept_is_order_dependent. Qed.
+Print Assumptions C04_B_cyclic_cycle_free_exact_refuted.
 
 (* Non-vacuity: the forest lark builds for
      start: _i q _i     _i: A | A A     ?q: A? "a"     A: "a"          on "aaaa" (dynamic lexer)
